@@ -14,8 +14,29 @@ import (
 // the sentinel os would report; C04's gate for tar and cache: invalid names match ErrInvalid.
 func VerifC05ReadOnly() {
 	var fsys hackpadfs.FS
-	kind := verifChoice("layer", 4)
-	verifTag("layer", []string{"cache", "tar", "sub-of-cache", "sub-of-tar"}[kind])
+	kind := verifChoice("layer", 5)
+	verifTag("layer", []string{"cache", "tar", "sub-of-cache", "sub-of-tar", "tar-after-failed-unpacking"}[kind])
+	if kind == 4 {
+		// unpacking fails with an error that is itself a *PathError about another path (a/b below the regular
+		// file a): every later Open fails, naming the caller's path
+		verifTarAdd("a", int('0'), 0644, 153601, 1)
+		verifTarAdd("a/b", int('0'), 0644, 1, 2)
+		tfs, err := NewReaderFS(context.Background(), verifTarReader(-1, -1), ReaderFSOptions{})
+		verifAssert(err == nil, "NewReaderFS")
+		<-tfs.Done()
+		verifAssert(tfs.UnarchiveErr() != nil, "unpacking an entry below a regular file succeeded")
+		name := []string{"x", "a", "a/b", ".", "d/f"}[verifChoice("name", 5)]
+		f, err := tfs.Open(name)
+		verifReach("called")
+		if err == nil {
+			_ = f.Close()
+		}
+		verifAssert(err != nil, "Open succeeded after unpacking failed")
+		pe, ok := err.(*hackpadfs.PathError)
+		verifAssert(ok, "the failure is not a *PathError")
+		verifAssert(pe.Path == name, "PathError.Path is not the caller's path")
+		return
+	}
 	prefix := ""
 	switch kind {
 	case 0, 2:
